@@ -91,6 +91,7 @@ pub fn run_fault(srv: &Server, fs: &FStream, bytes: &[u8], cut: usize, kind: &st
             return;
         }
     };
+    let fport = f.port;
     let mut obs: Vec<Value> = Vec::new();
     let mut oq = 5000u32;
     // deliver the prefix in 1..3 chunks, the observer looks in between
@@ -149,9 +150,32 @@ pub fn run_fault(srv: &Server, fs: &FStream, bytes: &[u8], cut: usize, kind: &st
             std::thread::sleep(Duration::from_millis(120));
         }
     }
+    // The final observations are taken when the server is done with the faulty connection - not a fixed delay later (a
+    // loaded machine may give the connection's task its turn late).  A connection the server ends (every kind but silence)
+    // returns its permit: wait for that hook event.  A silent connection stays open: read until three observations in a
+    // row, 150 ms apart, agree.
+    if kind != "silence" {
+        let t0 = std::time::Instant::now();
+        while t0.elapsed() < Duration::from_millis(6000) {
+            if tcp::hook_snapshot().iter().any(|e| e.site == "sem.release" && e.nums[0] == fport as u64) {
+                break;
+            }
+            std::thread::sleep(Duration::from_millis(5));
+        }
+    }
     std::thread::sleep(Duration::from_millis(40));
     oq += 10;
-    let (a1, c1, _) = observe(&mut o, oq);
+    let (mut a1, mut c1, _) = observe(&mut o, oq);
+    if kind == "silence" {
+        let mut same = 0;
+        let t0 = std::time::Instant::now();
+        while same < 2 && t0.elapsed() < Duration::from_millis(5000) {
+            std::thread::sleep(Duration::from_millis(150));
+            oq += 10;
+            let (a, c, _) = observe(&mut o, oq);
+            if a == a1 && c == c1 { same += 1; } else { same = 0; a1 = a; c1 = c; }
+        }
+    }
     std::thread::sleep(Duration::from_millis(60));
     oq += 10;
     let (a2, c2, alive) = observe(&mut o, oq);
